@@ -405,6 +405,7 @@ extern "C" void harness_run()
     if (q.mut == M_TC_THEN_TCP && q.tcpSeen == 0) sim::fail("c19-wrong-decoding", "query %s was answered although the UDP answer was truncated and no TCP query was made", q.name.c_str());
     exact++;
   }
+  for (auto& q : plan) { std::string cn = std::string("c19.response.") + mutName[q.mut]; sim::count(cn.c_str(), 1); }
   sim::count("c19.net_queries", plan.size());
   sim::count("c19.net_exact_decodings", exact);
   sim::count("c19.net_rejected", rejected);
